@@ -3,81 +3,193 @@ import json, os, random
 import vf
 
 META = dict(
-    text="Irreversible.tla transcribes the irreversibility bookkeeping (tryUpdateLastIrreversibleHeight with its per-height "
-         "rollback) and the reorganisation guard (IsIrreversible) over a growing block tree; TLC checks that no reorganisation "
-         "detaches a block at or below the recorded height, that the height never decreases while the chain grows and that a "
-         "DPoS-mode chain never gives up six or more blocks, for every tree of <= 12/13 blocks with forks near the tip. "
-         "Seeded simulated behaviours (16-20 blocks, forks up to 7 deep) are replayed on a full-stack node in DPoS mode: the "
-         "active chain, the refusal of deep forks, the detached heights (from the node's own disconnect notifications) and "
-         "GetLastIrreversibleHeight are compared after every block, and the property itself is evaluated on the real values.",
-    note="DPoS mode reached by configuration (VoteStartHeight=1, PreConnectOffset=1, CRCOnlyDPOSHeight=3, "
-         "RevertToPOWStartHeight=7; smaller values wrap the uint32 initialisation and are outside any deployed configuration); "
-         "nil confirmations; no POW<->DPOS transitions (they need arbiter evidence transactions).",
-    technique="TLA+ irreversibility model checked by TLC + behaviour replay on a full-stack node in DPoS mode",
+    text="Irreversible.tla transcribes the irreversibility bookkeeping of State.ProcessBlock (tryUpdateLastIrreversibleHeight, "
+         "RevertToPOW / RevertToDPOS transactions, the POW->DPOS switch at the work height, all decided against the pre-block "
+         "state and committed in append order, with the per-height rollback) and the two reorganisation guards (connectBestChain "
+         "and the exported ReorganizeChain, both through IsIrreversible) over a growing block tree whose blocks may carry the "
+         "mode transactions.  TLC checks, for every tree within the bounds, that no reorganisation detaches a block at or below "
+         "the recorded irreversible height, that the height never falls when the chain is extended, that a DPoS-mode chain never "
+         "gives up six or more blocks and that the state is the fold of the active chain; a second configuration checks the "
+         "cross-time reading (never detach what was once recorded irreversible; never fall while the height grows) on a design "
+         "that keeps the maximum, and a third shows that the code as it is violates it (open finding).  Exhaustively extracted, "
+         "simulated and scripted behaviours (DPOS -> POW -> DPOS round trips, forks below / at / above the frozen height, direct "
+         "ReorganizeChain calls) are replayed on a full-stack node: active chain, refusal, detached heights (from the node's own "
+         "disconnect notifications), GetLastIrreversibleHeight and GetConsensusAlgorithm are compared after every step, and the "
+         "property itself is evaluated on the real values, at the time and across time.",
+    note="DPoS bookkeeping reached by configuration (VoteStartHeight=1, PreConnectOffset=1, CRCOnlyDPOSHeight=3, "
+         "RevertToPOWStartHeight=7, RevertToPOW no-block time 0); nil confirmations; unit work per block; RevertToPOW only "
+         "of type NoBlock (the other two types differ in the checker's precondition, not in the state change).",
+    technique="TLA+ irreversibility / consensus-mode model checked by TLC + behaviour replay on a full-stack node",
 )
 
-CFG = """SPECIFICATION Spec
+CFG = """SPECIFICATION %(spec)s
 CONSTANTS
-  Base = 3
+  Base = %(base)d
   CRCOnly = 3
   RevertStart = 7
   Irr = 6
-  MaxBlocks = %d
-  MaxSide = %d
-  MaxForks = %d
+  WorkInterval = %(wi)d
+  MaxBlocks = %(nb)d
+  MaxSide = %(ns)d
+  MaxForks = %(nf)d
+  MaxForkDepth = %(fd)d
+  MaxModeTx = %(nm)d
+  MaxReorgCalls = %(nr)d
+  ReorgGuardAtTip = TRUE
+  KindSet = %(kinds)s
+  KeepMaxLih = %(keep)s
 VIEW view
-%s
+%(props)s
 CHECK_DEADLOCK FALSE
 """
-PROPS = "INVARIANTS LihBelowTip\nPROPERTIES NoDetachBelowIrreversible IrreversibleMonotone NeverDeepReorg"
+ALLK = '{"plain", "toPOW", "toDPOS"}'
+AS_IS = "INVARIANTS StateIsFold\nPROPERTIES NoDetachBelowIrreversible IrreversibleMonotoneOnExtension NeverDeepReorg"
+IDEAL = "PROPERTIES NoDetachBelowIrreversible NoDetachOnceIrreversible IrreversibleMonotone IrreversibleMonotoneOnExtension NeverDeepReorg"
+
+
+def cfg(**kw):
+    d = dict(spec="Spec", base=8, wi=10, nb=10, ns=3, nf=1, fd=8, nm=2, nr=1, kinds=ALLK, keep="FALSE", props=AS_IS)
+    d.update(kw)
+    return CFG % d
+
+
+def M(p, k="plain"):
+    return ("M", p, k)
+
+
+def chain(first_parent, first_id, n, kind_first="plain"):
+    """n blocks: the first on first_parent, each next one on the previous; ids first_id.."""
+    out = [M(first_parent, kind_first)]
+    for i in range(1, n):
+        out.append(M(first_id + i - 1))
+    return out
+
+
+def scenarios():
+    s = {}
+    # a reorganisation onto a branch with a RevertToPOW block ends with a lower irreversible height
+    s["pow-branch-lowers-height"] = [M(0), M(0, "toPOW"), M(1), M(2), M(4)]
+    # ... and a block once recorded irreversible is detached later (20 blocks)
+    s["once-irreversible-detached"] = chain(0, 1, 7) + chain(4, 8, 4, "toPOW") + chain(0, 12, 9)
+    # ReorganizeChain on a refused side chain that is higher than the tip (POW->DPOS window: height jumps above the tip)
+    s["reorgcall-above-tip"] = ([M(0, "toPOW"), M(1, "toDPOS")] + chain(2, 3, 12) + [M(13), M(15), M(16), ("R", 17, "")] +
+                                [M(14)] + chain(18, 19, 5) + [M(22), M(24)])
+    # POW after a revert: the frozen height is the only guard.  Fork from below it grows 1, 2, 3 above the tip
+    # (refused every time), fork from above it reorganises 8 deep
+    s["pow-frozen-height"] = (chain(0, 1, 6) + [M(6, "toPOW")] + chain(7, 8, 3) + chain(0, 11, 13) + [("R", 23, "")] +
+                              chain(2, 24, 9))
+    # RevertToPOW inside the waiting window resets the work height; RevertToPOW in the very block that switches to DPOS
+    s["revert-in-window"] = ([M(0, "toPOW"), M(1, "toDPOS")] + chain(2, 3, 3) + [M(5, "toPOW")] + chain(6, 7, 3) +
+                             [M(9, "toDPOS")] + chain(10, 11, 9) + [M(19, "toPOW")] + chain(20, 21, 3))
+    # DPOS mode: competing branch of 5 (accepted) and 6 (refused) blocks on a long chain, then ReorganizeChain
+    s["dpos-depth-rule"] = chain(0, 1, 8) + chain(3, 9, 6) + chain(14, 15, 3) + chain(11, 18, 7) + [("R", 24, "")]
+    return s
+
+
+def script_tla(steps):
+    items = ", ".join('<<"%s", %d, "%s">>' % (a, b, c) for a, b, c in steps)
+    return "----------------------------- MODULE IrrScript -----------------------------\nScript == << %s >>\n" \
+           "=============================================================================\n" % items
 
 
 def cls(b):
     vs = sorted({s["verdict"] for s in b})
     deep = max([len(s["detached"]) for s in b] + [0])
-    late_refuse = any(s["verdict"] == "refused" for s in b)
-    return "+".join(vs) + ":deep%d" % deep + (":refused" if late_refuse else "")
+    modes = "".join(sorted({s.get("mode", "DPOS")[0] for s in b}))
+    acts = "".join(sorted({s["act"][0] for s in b}))
+    return "+".join(vs) + ":deep%d:%s:%s" % (deep, modes, acts)
 
 
 def run(chk):
     thorough = chk.tier == "thorough"
     rng = random.Random(vf.seed())
     binary = vf.go_build("irrev")
-    nb, ns = (13, 4) if thorough else (12, 3)
-    r = vf.tlc("Chain", "Irreversible", "mc.cfg", cfg_text=CFG % (nb, ns, 2, PROPS), workers=16, timeout=1700)
-    vf.tlc_ok(r, "Irreversible exhaustive")
-    chk.add_tlc(r, "exhaustive: <=%d blocks, <=%d competing blocks (<=2 live forks) mined within 7 of the tip" % (nb, ns))
-    behs = []
-    # every interleaving of the main chain with ONE competing branch, complete behaviours only
-    nb, ns = (17, 8) if thorough else (14, 7)
-    r = vf.tlc("Chain", "Irreversible", "x.cfg", cfg_text=CFG % (nb, ns, 1, PROPS + "\nACTION_CONSTRAINT EmitLast"),
-               workers=1, timeout=1700)
-    vf.tlc_ok(r, "Irreversible single-fork exhaustive")
-    chk.add_tlc(r, "exhaustive single competing branch: %d blocks, <=%d on the branch; complete behaviours extracted" % (nb, ns))
-    b, st = vf.behaviours(r, limit=2500 if thorough else 120, rng=rng, per_class=250 if thorough else 12, strat_key=cls)
-    st["label"] = "single-fork interleavings"
+    # ---- 1. the design, exhaustively (small work interval so that round trips fit the bound)
+    nb = 11 if thorough else 9
+    r = vf.tlc("Chain", "Irreversible", "mc.cfg", cfg_text=cfg(wi=2, nb=nb, ns=3, nr=1), workers=16, timeout=2400)
+    vf.tlc_ok(r, "Irreversible exhaustive (code as is)")
+    chk.add_tlc(r, "exhaustive, code as is: <=%d blocks above height 8, <=3 competing blocks, <=2 mode transactions, work "
+                   "interval 2, one ReorganizeChain call" % nb)
+    r = vf.tlc("Chain", "Irreversible", "mc3.cfg", cfg_text=cfg(base=3, wi=2, nb=nb + 1, ns=3, nr=1, nm=1, fd=7), workers=16, timeout=2400)
+    vf.tlc_ok(r, "Irreversible exhaustive from height 3 (initialisation of the height)")
+    chk.add_tlc(r, "exhaustive, code as is, from height 3 (initialisation at RevertToPOWStartHeight): <=%d blocks" % (nb + 1))
+    if thorough:
+        r = vf.tlc("Chain", "Irreversible", "ideal.cfg", cfg_text=cfg(wi=2, nb=nb, ns=3, nr=1, keep="TRUE", props=IDEAL),
+                   workers=16, timeout=2400)
+        vf.tlc_ok(r, "Irreversible exhaustive (height kept at its maximum)")
+        chk.add_tlc(r, "exhaustive, design that keeps the maximum height: cross-time properties hold")
+    # the code as it is does NOT satisfy the cross-time reading: TLC must find the counterexample
+    r = vf.tlc("Chain", "Irreversible", "dev.cfg", cfg_text=cfg(wi=2, nb=9, ns=3, nr=0, nm=1, props="PROPERTIES IrreversibleMonotone"),
+               workers=4, timeout=900)
+    dev_seen = "IrreversibleMonotone is violated" in r["tail"]
+    chk.selftest("TLC finds the known deviation (height falls across a reorganisation onto a RevertToPOW branch)", dev_seen)
+    behs8, behs3 = [], []
+    # ---- 2. behaviours for the real node (work interval 10 as in the code)
+    # every interleaving of the main chain with one competing branch, plain / RevertToPOW blocks
+    nb, ns = (11, 5) if thorough else (9, 4)
+    r = vf.tlc("Chain", "Irreversible", "x.cfg",
+               cfg_text=cfg(nb=nb, ns=ns, nm=1, nr=1, kinds='{"plain", "toPOW"}', props=AS_IS + "\nACTION_CONSTRAINT EmitLast"),
+               workers=1, timeout=2400)
+    vf.tlc_ok(r, "Irreversible single-fork exhaustive with RevertToPOW")
+    chk.add_tlc(r, "exhaustive single competing branch with one RevertToPOW block: %d blocks, <=%d on the branch; complete behaviours extracted" % (nb, ns))
+    b, st = vf.behaviours(r, limit=2000 if thorough else 90, rng=rng, per_class=200 if thorough else 3, strat_key=cls)
+    st["label"] = "single-fork interleavings with RevertToPOW (from height 8)"
     chk.cov.setdefault("extraction", []).append(st)
-    behs += b
-    for blocks, side, num in ((20, 9, 2500 if thorough else 300),):
-        r = vf.tlc("Chain", "Irreversible", "sim.cfg", cfg_text=CFG % (blocks, side, 2, "ACTION_CONSTRAINT EmitLast"),
-                   workers=1, timeout=900, simulate="num=%d" % num, depth=blocks + 1, seed_arg=vf.seed() + blocks)
+    behs8 += b
+    # DPoS only, from height 3 (covers the initialisation branch and deeper forks)
+    nb, ns = (17, 8) if thorough else (14, 7)
+    r = vf.tlc("Chain", "Irreversible", "x3.cfg",
+               cfg_text=cfg(base=3, nb=nb, ns=ns, nm=0, nr=0, fd=7, kinds='{"plain"}', props=AS_IS + "\nACTION_CONSTRAINT EmitLast"),
+               workers=1, timeout=2400)
+    vf.tlc_ok(r, "Irreversible single-fork exhaustive (DPoS only)")
+    chk.add_tlc(r, "exhaustive single competing branch, DPoS only, from height 3: %d blocks, <=%d on the branch" % (nb, ns))
+    b, st = vf.behaviours(r, limit=2000 if thorough else 60, rng=rng, per_class=200 if thorough else 6, strat_key=cls)
+    st["label"] = "single-fork interleavings, DPoS only (from height 3)"
+    chk.cov.setdefault("extraction", []).append(st)
+    behs3 += b
+    # simulation: long behaviours with round trips, two live forks, ReorganizeChain calls
+    for blocks, side, num in ((30, 10, 4000 if thorough else 300),):
+        r = vf.tlc("Chain", "Irreversible", "sim.cfg",
+                   cfg_text=cfg(nb=blocks, ns=side, nf=2, fd=12, nm=3, nr=2, props="ACTION_CONSTRAINT EmitLast"),
+                   workers=1, timeout=1200, simulate="num=%d" % num, depth=blocks + 3, seed_arg=vf.seed() + blocks)
         vf.tlc_ok(r, "Irreversible simulation")
-        b, st = vf.behaviours(r, limit=1500 if thorough else 60, rng=rng, per_class=100 if thorough else 6, strat_key=cls)
-        st["label"] = "simulate %d blocks / %d competing / 2 forks" % (blocks, side)
+        b, st = vf.behaviours(r, limit=1500 if thorough else 40, rng=rng, per_class=100 if thorough else 3, strat_key=cls)
+        st["label"] = "simulate %d blocks / %d competing / 2 forks / mode round trips" % (blocks, side)
         chk.cov.setdefault("extraction", []).append(st)
-        behs += b
-    path = os.path.join(vf.scratch(), "irr.jsonl")
-    vf.write_json_lines(path, behs)
-    chk.absorb(vf.run_sharded(binary, lambda i, n: ["replay", path, str(i), str(n)]), "replay on full-stack DPoS-mode node")
+        behs8 += b
+    # scripted scenarios (the shapes of the findings and of the guards in POW mode)
+    for name, steps in sorted(scenarios().items()):
+        r = vf.tlc("Chain", "IrrScenario", "sc.cfg",
+                   cfg_text=cfg(spec="SSpec", nb=40, ns=40, nf=4, fd=40, nm=6, nr=3, props="ACTION_CONSTRAINT SEmit"),
+                   files={"IrrScript.tla": script_tla(steps)}, workers=1, timeout=300)
+        vf.tlc_ok(r, "scenario " + name)
+        b, st = vf.behaviours(r, dedupe_prefixes=False)
+        if len(b) != 1 or len(b[0]) != len(steps):
+            raise vf.Infra("scenario %s: the spec does not enable every scripted step (%d behaviours)" % (name, len(b)))
+        chk.add_tlc(r, "scenario " + name)
+        behs8 += b
+    allrecs = []
+    for base, behs in ((8, behs8), (3, behs3)):
+        path = os.path.join(vf.scratch(), "irr%d.jsonl" % base)
+        vf.write_json_lines(path, behs)
+        chk.absorb(vf.run_sharded(binary, lambda i, n: ["replay", path, str(i), str(n)], env={"VERIF_IRREV_BASE": str(base)}),
+                   "replay on full-stack node (prefix height %d)" % base)
     # binding self-test
-    b0 = next(x for x in behs if any(s["lih"] > 0 for s in x))
+    b0 = next(x for x in behs8 if any(s["lih"] > 0 for s in x))
     bad = json.loads(json.dumps(b0))
     k = max(i for i, s in enumerate(bad) if s["lih"] > 0)
     bad[k]["lih"] += 1
     p = os.path.join(vf.scratch(), "irr-bad.jsonl")
     vf.write_json_lines(p, [bad])
-    recs, _ = vf.run_driver(binary, ["replay", p], env={"TMPDIR": "/dev/shm"})
-    chk.selftest("replay: expected irreversible height corrupted", any(x.get("kind") == "violation" for x in recs))
-    chk.assumptions += ["DPoS mode by configuration, nil confirmations, all blocks valid and of unit work",
-                        "competing blocks are mined on parents at most 7 below the tip"]
+    recs, _ = vf.run_driver(binary, ["replay", p], env={"TMPDIR": "/dev/shm", "VERIF_IRREV_BASE": "8"})
+    chk.selftest("replay: expected irreversible height corrupted", any(x.get("kind") == "violation" and "irreversible-height:" in x.get("key", "") for x in recs))
+    bad = json.loads(json.dumps(next(x for x in behs8 if any(s.get("mode") == "POW" for s in x))))
+    k = max(i for i, s in enumerate(bad) if s.get("mode") == "POW")
+    bad[k]["mode"] = "DPOS"
+    vf.write_json_lines(p, [bad])
+    recs, _ = vf.run_driver(binary, ["replay", p], env={"TMPDIR": "/dev/shm", "VERIF_IRREV_BASE": "8"})
+    chk.selftest("replay: expected consensus mode corrupted", any(x.get("kind") == "violation" and "consensus-mode" in x.get("key", "") for x in recs))
+    chk.assumptions += ["DPoS bookkeeping by configuration, nil confirmations, all blocks valid and of unit work",
+                        "competing blocks are mined on parents at most 7-12 below the tip (40 in the scripted scenarios)",
+                        "RevertToPOW of type NoBlock with a configured no-block time of 0"]
     return chk.finish(exhaustive=False)
